@@ -25,7 +25,7 @@ LEVEL_TEXT = ("Step-cases with 10^3 particles each: random steep and flat bathym
 LEVEL_NOTE = "Asserted only where |vertical displacement| < h(start cell), as the property states. Trusts the spied W as the diffusion draw (its statistics are C11)."
 RULE = ("case = direct (bathymetry seed, Dz, w, scheme, flow) or e2e (ROMS world, Dz, w). Non-trivial: some particle was reflected at the surface or at the bottom and some particle "
         "changed cell during the step; distinct by parameters.")
-MANDATORY = ["e2e_vtransform1_cells_shallower_than_hc", "reflected_at_surface", "reflected_at_bottom", "changed_cell_same_step", "start_at_surface_or_bottom", "vertical_advection", "vertical_diffusion",
+MANDATORY = ["e2e_grid_module_ROMS2", "e2e_vtransform1_cells_shallower_than_hc", "reflected_at_surface", "reflected_at_bottom", "changed_cell_same_step", "start_at_surface_or_bottom", "vertical_advection", "vertical_diffusion",
              "both_off_untouched", "steps_checked", "e2e_records_checked", "large_displacement_fraction", "e2e_subgrid_off_diagonal", "inactive_particles_reflected", "e2e_inactive_particles"]
 ASSUMPTIONS = ["|displacement| < h of the start cell (larger ones are outside the property)"]
 TIMEOUT = {"quick": 900, "thorough": 3400}
@@ -184,8 +184,18 @@ def _e2e(case, wd, V, sit, cnt):
         run["vertical_advection"] = True
         run["extra_forcing"] = ["w"]
         run["state"] = dict(instance_variables=dict(w="float"), default_values=dict(w=0.0))
-    res, conf, world = run_scenario(dict(world=w, run=run), wd)
-    desc = dict(kind="e2e", Dz=Dz, w=wv, idx=case["idx"])
+    roms2 = bool(case["idx"] % 5 == 4)
+
+    def tweak(conf):
+        if roms2:  # the documented alternative grid/forcing module (adaptive subgrid), as in examples/*/adapt.yaml
+            conf["grid"]["module"] = "ladim.ROMS2"
+            conf["forcing"]["module"] = "ladim.ROMS2"
+            conf["grid"].pop("subgrid", None)
+
+    if roms2:
+        _bump(sit, "e2e_grid_module_ROMS2")
+    res, conf, world = run_scenario(dict(world=w, run=run), wd, tweak=tweak)
+    desc = dict(kind="e2e", Dz=Dz, w=wv, idx=case["idx"], grid_module="ladim.ROMS2" if roms2 else "ladim.ROMS")
     if not res.ok:
         V.append(C.viol(f"end-to-end run with vertical motion did not complete: {res.exc}", tb=res.tb[-1200:], **desc))
         return
